@@ -7,6 +7,7 @@ import (
 	"fmt"
 	"io"
 	"strings"
+	"time"
 
 	lz4 "github.com/pierrec/lz4/v4"
 	"github.com/pierrec/lz4/v4/verifsched"
@@ -63,9 +64,37 @@ type c15WRes struct {
 	names []string
 	sink  *faultSink
 	panic string
+	hung  bool
 }
 
+// c15WHung: a free-running concurrent Writer did not return from a call in this worker; further
+// free-running concurrent writer cases are skipped (each would cost the full watchdog time).
+var c15WHung bool
+
+// runC15W runs the writer history; for a concurrent Writer (real goroutines in this flavour) it
+// runs under a watchdog (30 s + 120 s for calls that take milliseconds): which schedules block is
+// decided under the controlled scheduler, here a hang only must not keep the check from ending.
 func runC15W(k c15W, sink io.Writer) (res c15WRes) {
+	if k.Opts.Conc == 1 || Flavour == "sched" {
+		return runC15W1(k, sink)
+	}
+	done := make(chan c15WRes, 1)
+	go func() { done <- runC15W1(k, sink) }()
+	select {
+	case res = <-done:
+		return res
+	case <-time.After(30 * time.Second):
+	}
+	select {
+	case res = <-done:
+		return res
+	case <-time.After(120 * time.Second):
+	}
+	c15WHung = true
+	return c15WRes{hung: true}
+}
+
+func runC15W1(k c15W, sink io.Writer) (res c15WRes) {
 	defer func() {
 		if r := recover(); r != nil {
 			res.panic = fmt.Sprint(r)
@@ -101,6 +130,9 @@ func runC15W(k c15W, sink io.Writer) (res c15WRes) {
 
 func judgeC15W(k c15W, res c15WRes, sink *faultSink, golden []byte) (string, string) {
 	cls := fmt.Sprintf("delivery=%s conc>1=%v legacy=%v", k.Deliv, k.Opts.Conc != 1, k.Opts.Legacy)
+	if res.hung {
+		return "a Writer call does not return after the sink failed (free-running concurrent execution); " + cls, fmt.Sprintf("fail at call %d", k.FailAt)
+	}
 	if res.panic != "" {
 		return "Writer panics when the sink fails; " + cls, res.panic
 	}
@@ -225,6 +257,10 @@ func c15Run(c *ev.Ctx) {
 			g := &faultSink{}
 			res0 := runC15W(k0, g)
 			c.Eval(1)
+			if res0.hung {
+				c.Report(&ev.Finding{Sig: "a Writer call does not return (free-running concurrent execution, no fault injected)", What: fmt.Sprint(k0), Case: k0})
+				continue
+			}
 			for i, e := range res0.errs {
 				if e != nil {
 					c.Report(&ev.Finding{Sig: "Writer fails without any fault: " + res0.names[i], What: fmt.Sprint(e, k0), Case: k0})
@@ -235,6 +271,10 @@ func c15Run(c *ev.Ctx) {
 			c.Add("writer_fault_free_sink_calls", int64(n))
 			for k := 1; k <= n; k++ {
 				for _, partial := range []bool{false, true} {
+					if conc != 1 && c15WHung {
+						c.Add("writer_fault_points_skipped_after_hang", 1)
+						continue
+					}
 					kk := k0
 					kk.FailAt, kk.Partial = k, partial
 					sink := &faultSink{failAt: k, partial: partial}
@@ -243,6 +283,11 @@ func c15Run(c *ev.Ctx) {
 					c.Distinct(1)
 					c.Add("writer_fault_points", 1)
 					if sig, what := judgeC15W(kk, res, sink, golden); sig != "" {
+						if res.hung {
+							// not re-executed: every re-run would cost the full watchdog time
+							c.Report(&ev.Finding{Sig: sig + " [schedule-dependent: observed in a free-running concurrent execution]", What: fmt.Sprintf("%s; %+v", what, kk), Case: kk})
+							continue
+						}
 						c.ConfirmFree(&ev.Finding{Sig: sig, What: fmt.Sprintf("%s; %+v", what, kk), Case: kk}, conc != 1, func() *ev.Finding {
 							s2 := &faultSink{failAt: kk.FailAt, partial: kk.Partial}
 							r2 := runC15W(kk, s2)
